@@ -784,7 +784,8 @@ impl<'ccx, 'tcx: 'ccx> TyGenContext<'ccx, 'tcx, '_> {
                 let conversion = match ty {
                     // Note: the `output` variable is a string initialized in the template
                     SuccessType::Write => "std::move(output)".into(),
-                    SuccessType::Unit => "".into(),
+                    // std::optional<std::monostate>() would be disengaged, like std::nullopt
+                    SuccessType::Unit => "std::monostate()".into(),
                     SuccessType::OutType(ref o) => {
                         self.gen_c_to_cpp_for_type(o, format!("{var_name}.ok").into())
                     }
